@@ -10,6 +10,7 @@ CONSTANTS
   WithEnv = TRUE
   Depth = 9
   GenActs <- ActsTwo
+  Shape <- ShapeAny
 INIT GenInit
 NEXT GenNext
 CONSTRAINT Emit
